@@ -31,7 +31,25 @@ ASSUMPTIONS = [
 ]
 
 
+class SharedTarget:
+    """one object onto which several machines bind their triggers (the first one to bind an event name keeps it)"""
+
+
 class P(Play):
+    async def construct(self, name="main", model=None, Hh=None, state0=None):
+        ctx = await super().construct(name, model, Hh, state0)
+        if self.case.get("shared_target") and not ctx.interp.is_async:
+            if name == "main":
+                self.shared = SharedTarget()
+                ctx.sm.bind_events_to(self.shared)
+                ctx.extra["bound"] = self.shared
+            elif hasattr(self, "shared"):
+                with warnings.catch_warnings():
+                    warnings.simplefilter("ignore")  # documented: existing attributes are skipped with a warning
+                    ctx.sm.bind_events_to(self.shared)
+                self.labels.add("two-machines-one-target")
+        return ctx
+
     async def op_send(self, step):
         tgt = step.get("target", "main")
         if tgt not in self.ctxs:
@@ -188,8 +206,10 @@ def cases(draw, tier):
             hist.append({"op": "deficient_instance"})
         if have_sib and draw(st.integers(0, 3)) == 0:
             step = dict(step, target="sib")
+        elif draw(st.integers(0, 2)) == 0:
+            step = dict(step, style="bound")  # through the trigger bound onto the shared target object
         hist.append(step)
-    return {"spec": spec, "cfg": cfg, "history": hist, "noise_specs": [flipped(spec), other], "driver_listener": not is_async, "sib_instance_cbs": draw(st.booleans()), "sib_late_as_ctor": draw(st.booleans())}
+    return {"spec": spec, "cfg": cfg, "history": hist, "noise_specs": [flipped(spec), other], "driver_listener": not is_async, "sib_instance_cbs": draw(st.booleans()), "sib_late_as_ctor": draw(st.booleans()), "shared_target": draw(st.booleans())}
 
 
 def strategy(tier):
